@@ -121,3 +121,35 @@ def split(p):
     if len(head) and head != sep * len(head):
         head = head.rstrip(sep)
     return head, tail
+
+
+# symbolic links of the virtual tree: absolute link path -> absolute (already physical) target; filled in by the harness
+SYMLINKS = {}
+
+
+def realpath(filename, *, strict=False):
+    """posixpath.realpath over the virtual tree: components are resolved left to right, '..' pops the PHYSICAL parent"""
+    if not isabs(filename):
+        filename = join(CWD, filename)
+    comps = []
+    for comp in filename.split(sep):
+        if comp == "" or comp == curdir:
+            continue
+        if comp == pardir:
+            if comps:
+                comps.pop()
+            continue
+        comps.append(comp)
+        for link, target in SYMLINKS.items():
+            lk = [x for x in link.split(sep) if x]
+            if len(lk) == len(comps) and all(a == b for a, b in zip(comps, lk)):
+                comps = [x for x in target.split(sep) if x]
+                break
+    out = ""
+    for c in comps:
+        out = out + sep + c
+    return out if comps else sep
+
+
+def islink(path):
+    return any(path == link for link in SYMLINKS)
